@@ -373,7 +373,13 @@ impl
             Option<Vec<Constraint>>,
         ),
     ) -> Self {
-        let index_of_first_extension = value.0 .0.len();
+        // `COMPONENTS OF` entries are not members: they do not count towards the index
+        let index_of_first_extension = value
+            .0
+             .0
+            .iter()
+            .filter(|c| matches!(c, SequenceComponent::Member(_)))
+            .count();
         value.0 .0.append(&mut value.0 .2.unwrap_or_default());
         let mut components_of = vec![];
         let mut members = vec![];
